@@ -11,8 +11,10 @@ CONSTANTS Seed,      \* data seed
           BSet,      \* block sizes for message cases
           FullLen,   \* block sizes <= FullLen get every length 0..3bs+1, larger ones the seam lengths
           StrBS,     \* block sizes whose strings over the small alphabet are enumerated (accept set)
+          HdrBS,     \* block sizes whose length-block candidates are enumerated
           OutFile
 P  == INSTANCE Padding
+BN == INSTANCE BigNat
 B  == INSTANCE Bytes
 R  == INSTANCE Prng
 Hx == INSTANCE Hex
@@ -33,7 +35,24 @@ MsgCases == UNION {{<<b, Msg(b, n, t)>> : n \in Lens(b), t \in Tails(b)} : b \in
 Alphabet(b) == {0, 1, 2, 128, b}
 StrLens(b) == IF b = 1 THEN {1, 2, 3, 4} ELSE IF b = 2 THEN {2, 4, 6} ELSE {b, 2 * b}
 
+(* length-block candidates for method 3 (and hostile input for the others): a first block announcing a bit length from  *)
+(* the boundary classes - around the true body length, 0, tiny, 2^32, 2^56, 2^63 and 2^64 - 8 b j +- 8 (sums that wrap a   *)
+(* 64-bit counter) - in front of 1 or 2 body blocks that end in zeros; for blocks wider than 8 bytes also with FF in front *)
+Two64 == <<1, 0, 0, 0, 0, 0, 0, 0, 0>>
+HdrSmall(b, k) == {v \in {0, 1, 7, 8, 8 * k * b - 16, 8 * k * b - 9, 8 * k * b - 8, 8 * k * b - 7, 8 * k * b - 1, 8 * k * b, 8 * k * b + 1,
+                          8 * k * b + 8, 8 * (k + 1) * b, 8 * (k * b - 9)} : v >= 0}
+HdrBig(b, k) == ({BN!ToFixed(BN!Sub(Two64, BN!FromInt(8 * b * j + d)), 8) : j \in 0..3, d \in {0, 8, 1}} \ {BN!ToFixed(Two64, 8)})
+                \cup {<<128, 0, 0, 0, 0, 0, 0, 0>>, <<128, 0, 0, 0, 0, 0, 0, 8>>, <<0, 0, 0, 1, 0, 0, 0, 0>>, <<0, 0, 0, 1, 0, 0, 0, 8>>,
+                      <<1, 0, 0, 0, 0, 0, 0, 0>>, <<255, 255, 255, 255, 255, 255, 255, 255>>, <<255, 255, 255, 255, 255, 255, 255, 248>>}
+Hdr8(b, k) == {B!I2OSP(v \div 16777216, 5) \o B!I2OSP(v % 16777216, 3) : v \in HdrSmall(b, k)} \cup {x \in HdrBig(b, k) : Len(x) = 8}
+HdrBlock(b, v8, ff) == IF b >= 8 THEN SubSeq([i \in 1..(b - 8) |-> IF ff THEN 255 ELSE 0], 1, b - 8) \o v8 ELSE SubSeq(v8, 9 - b, 8)
+HdrBody(b, k) == LET z == IF b > 9 THEN 9 ELSE b - 1 IN R!Bytes(Seed, 1500 + b, k * b - z) \o B!Zeros(z)
+HdrCases == UNION {UNION {{<<b, HdrBlock(b, v8, ff) \o HdrBody(b, k)>> : v8 \in Hdr8(b, k), ff \in {FALSE, b > 8}} : k \in {1, 2}} : b \in HdrBS}
+
 Init ==
+  \/ \E c \in HdrCases :
+        /\ bs = c[1] /\ data = c[2] /\ depth = 0 /\ kind = "str"
+        /\ hist = << [op |-> "init", bs |-> c[1], data |-> Hx!FromBytes(c[2]), spare |-> 0] >>
   \/ \E c \in MsgCases :
         /\ bs = c[1] /\ data = c[2] /\ depth = 0 /\ kind = "msg"
         /\ hist = << [op |-> "init", bs |-> c[1], data |-> Hx!FromBytes(c[2]),
